@@ -409,6 +409,21 @@ Theorem C13_added_unit_is_a_new_parent : forall lg st,
 Proof. exact E2eProofs.added_unit_is_a_new_parent_std. Qed.
 Print Assumptions C13_added_unit_is_a_new_parent.
 
+(* a router that connects to the unit which a reload has just started is a NEW source: the unit looks it up under its
+   own ingress id, which no earlier source has as parent, finds nothing and registers it afresh - it gets the register's
+   next id. None of the ids whose routes the removal withdrew is used again, so known finding C03-1 (the sticky
+   withdrawn marker of a REUSED id) does not apply to what the returning router announces. (Proviso: no source names
+   the register's next id as its parent - ids are handed out in order, C14.) *)
+Theorem C13_router_of_added_unit_is_a_new_source : forall lg st k,
+  E2eModel.is_run st = false -> E2eModel.is_want st = true -> (k < 4)%N ->
+  E2eModel.next_id_unused (PipeModel.w_reg (E2eModel.es_w (E2eModel.is_e st))) ->
+  let st1 := E2eModel.i_step lg st (E2eModel.IE E2eModel.EReload) in
+  let st2 := E2eModel.i_step lg st1 (E2eModel.IE (E2eModel.EW (PipeModel.WConnect k))) in
+  E2eModel.is_uid st1 = IngressModel.serial (PipeModel.w_reg (E2eModel.es_w (E2eModel.is_e st))) /\
+  E2eModel.i_rid st2 k = Some (IngressModel.serial (PipeModel.w_reg (E2eModel.es_w (E2eModel.is_e st1)))).
+Proof. exact E2eProofs.router_of_added_unit_is_a_new_source. Qed.
+Print Assumptions C13_router_of_added_unit_is_a_new_source.
+
 (* the property's reading of the removal: the sessions of the unit's routers are over - every route of every peer of
    such a router is withdrawn, attributes kept, and no other route changes *)
 Theorem C13_removal_in_the_property_reading : forall st,
